@@ -20,26 +20,43 @@ func mirrorElem(c *Check, p *Path) (elem string, private, found bool) {
 	// pred(name) ⇔ name does not have the private prefix (library contract: the
 	// elements for which pred holds, in order). The iteration's element is then
 	// an application DBI.
-	for _, fl := range callsOf(p, "github.com/samber/lo.Filter") {
-		if len(fl.Args) != 2 || !strings.HasPrefix(fl.Args[0], "lmdbenv.ReadDBINames@") || !strings.HasSuffix(fl.Args[0], "#0") {
-			continue
-		}
-		if !predIsNotPrivate(c, fl.Args[1]) {
-			continue
-		}
-		for _, cd := range p.Conds() {
-			a := cd.Atom
-			if a.Kind == "cmp" && a.B == "len("+fl.Res+")" && strings.HasPrefix(a.A, "(loop:") && p.State.RelOf(a.Dom, a.A, a.B) == LT {
-				return fl.Res + "[" + a.A + "]", false, true
-			}
-		}
+	if e, ok := filteredAppElem(c, p); ok {
+		return e, false, true
 	}
 	return "", false, false
 }
 
+// filteredAppElem: the path is inside a loop over lo.Filter(ReadDBINames, pred)
+// with pred(name) ⇔ name is not private, or over lo.Reject(ReadDBINames, pred)
+// with pred(name) ⇔ name is private: the element of this round, an application
+// DBI name.
+func filteredAppElem(c *Check, p *Path) (string, bool) {
+	for _, callee := range []string{"github.com/samber/lo.Filter", "github.com/samber/lo.Reject"} {
+		for _, fl := range callsOf(p, callee) {
+			if len(fl.Args) != 2 || !strings.HasPrefix(fl.Args[0], "lmdbenv.ReadDBINames@") || !strings.HasSuffix(fl.Args[0], "#0") {
+				continue
+			}
+			if !predPrivate(c, fl.Args[1], strings.HasSuffix(callee, "Reject")) {
+				continue
+			}
+			for _, cd := range p.Conds() {
+				a := cd.Atom
+				if a.Kind == "cmp" && a.B == "len("+fl.Res+")" && strings.HasPrefix(a.A, "(loop:") && p.State.RelOf(a.Dom, a.A, a.B) == LT {
+					return fl.Res + "[" + a.A + "]", true
+				}
+			}
+		}
+	}
+	return "", false
+}
+
+func predIsNotPrivate(c *Check, fv string) bool { return predPrivate(c, fv, false) }
+
 // predIsNotPrivate: the function value fv (as rendered in a call argument)
 // returns true exactly for names without the private "_sync" prefix.
-func predIsNotPrivate(c *Check, fv string) bool {
+// predPrivate: the function value fv returns true exactly for names with the
+// private "_sync" prefix (want = true) or exactly for names without it (want = false).
+func predPrivate(c *Check, fv string, want bool) bool {
 	pred := c.P.Func(strings.TrimPrefix(strings.TrimPrefix(fv, "closure:"), "func:"))
 	if pred == nil || len(pred.Params) == 0 {
 		return false
@@ -57,9 +74,10 @@ func predIsNotPrivate(c *Check, fv string) bool {
 		r := q.Rets[0]
 		priv, f := boolCond(q, test, -1)
 		switch {
-		case r == "!"+test:
-		case r == "const:true" && f && !priv:
-		case r == "const:false" && f && priv:
+		case !want && r == "!"+test:
+		case want && r == test:
+		case r == "const:true" && f && priv == want:
+		case r == "const:false" && f && priv != want:
 		default:
 			return false
 		}
@@ -327,6 +345,8 @@ func ruleSyncedIdBound(c *Check, rule string) {
 					bad++
 					c.Bad(rule, name+"/unadjusted-id", "the transaction's own id is reported as synced on a path that has not established LastTxnID >= that id: an empty write transaction is not recorded by LMDB and its id is reused by the next commit, which would then never be noticed", c.pathPos(p), describe(c, p))
 				}
+			case info != "" && (id == "builtin:min("+own+", "+info+")" || id == "builtin:min("+info+", "+own+")"):
+				// min(txn.ID(), LastTxnID) computed directly
 			case info != "" && id == info:
 				if p.State.RelOf("int", info, own) != LT {
 					bad++
